@@ -301,6 +301,23 @@ def DS.cspec (d : DS) : CSpec :=
 
 def showMatL (A : List (List Q)) : String := showList A.flatten
 
+/-- elimination with full pivoting: min |pivot| / max |pivot| over the first `k` steps (0 if a pivot vanishes) -/
+def pivotRatio (absQ : Q → Q) (A : LMat Q) (k : Nat) : Q :=
+  let rec go (fuel : Nat) (M : LMat Q) (mn mx : Q) (first : Bool) : Q :=
+    match fuel with
+    | 0 => if mx = 0 then 0 else mn / mx
+    | fuel+1 =>
+      -- largest entry
+      let best := (zipIdx M).foldl (fun (b : Q × Nat × Nat) pr =>
+        (zipIdx pr.1).foldl (fun (b : Q × Nat × Nat) pc => if absQ pc.1 > b.1 then (absQ pc.1, pr.2, pc.2) else b) b) (0, 0, 0)
+      if best.1 = 0 then 0 else
+      let prow := M.getD best.2.1 []
+      let pv := prow.getD best.2.2 0
+      let rest := (zipIdx M).filterMap (fun pr => if pr.2 = best.2.1 then none else
+        some (rowSub pr.1 prow (pr.1.getD best.2.2 0 / pv)))
+      go fuel rest (if first then best.1 else (if best.1 < mn then best.1 else mn)) (if best.1 > mx then best.1 else mx) false
+  go k A 0 0 true
+
 def doCsCall (d : DS) (name : String) (t : Toks) : Option (DS × String) :=
   let m := d.m
   let nd := m.dofCount
@@ -405,8 +422,18 @@ def doCsCall (d : DS) (name : String) (t : Toks) : Option (DS × String) :=
     let G := Spec.constraintJacobian d.specModel d.specState d.cset
     let unact := (zipIdx d.actuation).filterMap (fun p => if p.1 then none else some p.2)
     let GPT : LMat Q := G.map (fun row => unact.map (fun j => row.getD j 0))
-    let full := lmRank GPT = unact.length
-    some (also r d "FULLACT.spec" (if full then "1" else "0"))
+    -- The C++ decides the rank numerically (FullPivHouseholderQR, threshold ~ 3 eps): the decision is
+    -- only determined where the exact answer has a margin.  Full rank with pivot ratio >= 1e-6 -> 1;
+    -- fewer rows than unactuated coordinates, or an exactly zero column (a coordinate that does not
+    -- move any constraint: structural zeros are exact in the C++ too) -> 0; an exactly singular matrix
+    -- without such a reason is decided by rounding and is not compared.
+    let nu := unact.length
+    let absQ := fun (x : Q) => if x < 0 then -x else x
+    let zeroCol := (List.range nu).any (fun j => GPT.all (fun row => row.getD j 0 = 0))
+    let ratio := pivotRatio absQ GPT nu
+    if GPT.length < nu || zeroCol then some (also r d "FULLACT.spec" "0")
+    else if ratio * 1000000 ≥ 1 then some (also r d "FULLACT.spec" "1")
+    else some (also r d "FULLACT.margin.info" (showRat ratio))
   | "CAQD" =>
     let r := out d name (" ".intercalate d.impl)
     if d.impl.isEmpty then some r else
